@@ -21,11 +21,31 @@ TRUSTED = [
     "functions (tolerance applied on the implementation-side comparison only, never in a theorem)",
     "pygmo: proposes only vectors inside get_bounds() (every logged evaluation is checked), champions/population "
     "are individuals that were evaluated (checked: every reported individual is matched to a logged evaluation)",
+    "modelled by hand, tied by correspondence only: which objects ParameterValues.__init__ accepts for `values` and "
+    "whether it types them Multi or Simple (pv_accepts, the n = 0 case of norm): \"_\" and what equals it are kept, an "
+    "empty container is ParameterType.Simple and kept, a non-Sequence is refused, `values == \"_\"` on a numpy array "
+    "with other than one element raises; python's isinstance relation between the containers driven (str, list, "
+    "tuple, numpy.ndarray, collections.UserList, generator) and the classes the source names (isinst)",
 ]
 
 CLAUSES = {1: "bounds_layout", 2: "conversion_log_slices", 3: "outside_declared_bounds", 4: "reported_not_applied",
            5: "decision_vector_modified", 6: "candidate_outside_box", 7: "refusal_rule",
-           8: "declaration_modified", 9: "processor_modified"}
+           8: "declaration_modified", 9: "processor_modified", 10: "parameter_count", 0: "harness_case_malformed"}
+
+# the container the placeholders of a vector variable are handed over in -> ckind of Model/DecisionKinds.v
+CKIND = {"und": "KUnd", "list": "KList", "tuple": "KTuple", "str": "KStr", "ndarray": "KArr", "userlist": "KSeq",
+         "gen": "KIter"}
+CONTAINER_KINDS = ["list", "tuple", "str", "ndarray", "userlist", "gen"]
+YAML_KINDS = ("list", "str")
+
+
+def kind_name(v):
+    return "und" if v["n"] is None else v.get("kind", "list")
+
+
+def spec_n(v):
+    """None: the declaration means a scalar ("_" or the one-element array equal to it), else the vector's width"""
+    return None if v["n"] is None or v.get("kind") == "ndarray" else v["n"]
 
 
 def h(x: float) -> str:
@@ -46,12 +66,14 @@ def log_pair(r):
     return float(f"1e{a}"), float(f"1e{b}"), a, b
 
 
-def gen_var(r, idx, shape=None, log=None, per=None):
+def gen_var(r, idx, shape=None, log=None, per=None, kind=None):
     """-> (payload var, box info [(kind, lo, hi)] per component in decision space)."""
     model = r.randrange(2)
     if shape is None:
         shape = "s" if r.random() < 0.4 else r.choice([1, 2, 2, 3, 3, 4])
     n = None if shape == "s" else int(shape)
+    if kind == "str" and n == 1:
+        kind = "list"             # "_" * 1 IS the scalar declaration
     if log is None:
         log = r.random() < 0.45
     if per is None:
@@ -75,6 +97,8 @@ def gen_var(r, idx, shape=None, log=None, per=None):
         bnd = ["shared", h(pairs[0][0]), h(pairs[0][1])]
         comps = comps * w
     v = dict(key=f"m{model}.p{idx}", model=model, arg=f"p{idx}", n=n, log=bool(log), bnd=bnd)
+    if kind not in (None, "list") and n is not None:
+        v["kind"] = kind
     return v, comps
 
 
@@ -126,12 +150,42 @@ FIXED_LAYOUTS = [
 ]
 
 
-def make_case(r, layout=None, mode="direct", **extra):
+# layouts whose vector variables come in other containers than a list: (shape, log, per, container)
+KIND_LAYOUTS = [
+    [(3, True, False, "tuple"), ("s", False, False)],               # log vector in a tuple before a linear scalar
+    [("s", False, False), (2, False, True, "tuple"), ("s", True, False)],
+    [(2, True, False, "str"), ("s", False, False)],                 # values="__"
+    [(1, True, False, "ndarray"), (2, False, False, "list")],       # np.array(["_"]) == "_": a scalar declaration
+    [(2, False, True, "userlist"), ("s", True, False)],
+    [(0, True, False, "tuple"), ("s", False, False)],               # C10-F2: an EMPTY container is kept as it is
+    [(0, True, False, "str"), ("s", False, False)],
+    [("s", True, False), (0, False, False, "userlist"), (2, True, False, "list")],
+    [(2, False, False, "gen"), ("s", False, False)],                # a generator is not a Sequence
+    [(2, True, False, "ndarray")],                                  # `values == "_"` is ambiguous
+    [(3, False, False, "tuple"), (2, True, True, "tuple")],
+    [(3, False, False, "list"), (0, True, False, "list"), ("s", True, False)],   # an empty list AFTER a vector
+    [(2, True, True, "tuple"), (0, False, False, "tuple"), ("s", False, False)],
+]
+# written as YAML and loaded by pyxel.configuration.loads
+YAML_LAYOUTS = [
+    [(3, True, False, "list"), ("s", False, False)],
+    [("s", True, False), (2, False, True, "list"), (2, True, False, "str")],
+    [(0, False, False, "list"), ("s", True, False), (0, True, False, "str")],
+]
+
+
+def make_case(r, layout=None, mode="direct", p_kind=0.0, **extra):
     if layout is None:
         layout = [(None, None, None)] * r.choice([1, 2, 2, 3, 3, 4, 5])
     vars_, comps = [], []
-    for i, (shape, log, per) in enumerate(layout):
-        v, c = gen_var(r, i, shape, log, per)
+    for i, entry in enumerate(layout):
+        shape, log, per = entry[:3]
+        kind = entry[3] if len(entry) > 3 else None
+        if kind is None and p_kind and r.random() < p_kind:
+            kind = r.choice(YAML_KINDS if extra.get("via") == "yaml" else ["tuple", "tuple", "str", "userlist", "ndarray"])
+        v, c = gen_var(r, i, shape, log, per, kind)
+        if v.get("kind") == "ndarray" and v["n"] == 1:
+            c = c[:1]
         vars_.append(v)
         comps += c
     case = dict(mode=mode, vars=vars_, xs=[], evaluate=[], **extra)
@@ -181,7 +235,18 @@ def small_scope_layouts(max_vars=3):
     return out
 
 
-def gen_history(r, layout=None, n_ops=None):
+def container_scope_layouts(r):
+    """Every list of 1..2 variables over: "_" and each container kind with 0, 1, 2 placeholders (19 shapes)."""
+    import itertools
+    shapes = [("s", None)] + [(n, k) for k in CONTAINER_KINDS for n in (0, 1, 2) if not (k == "str" and n == 1)]
+    out = []
+    for m in (1, 2):
+        for t in itertools.product(shapes, repeat=m):
+            out.append([(n, r.random() < 0.5, False if n in ("s", 0) else r.random() < 0.4, k) for n, k in t])
+    return out
+
+
+def gen_history(r, layout=None, n_ops=None, p_kind=0.0):
     """A history on shared objects: several problem constructions from the same ParameterValues objects and the
     same processor, interleaved with get_bounds / convert_to_parameters / fitness / update_processor on any of
     the problems built so far."""
@@ -190,10 +255,10 @@ def gen_history(r, layout=None, n_ops=None):
         if r.random() < 0.5:
             # the kind whose arrays are views on the kept boundaries: a logarithmic vector with its own pairs
             layout[r.randrange(len(layout))] = (r.choice([2, 3, 4]), True, True)
-    case = make_case(r, layout)
+    case = make_case(r, layout, p_kind=p_kind)
     comps = []
     for v in case["vars"]:
-        w = 1 if v["n"] is None else v["n"]
+        w = 1 if spec_n(v) is None else v["n"]
         b = v["bnd"]
         pairs = [(b[1], b[2])] * w if b[0] == "shared" else [tuple(x) for x in b[1]]
         for lo, hi in pairs:
@@ -249,8 +314,12 @@ def gen_histories(ctx: Ctx, n_hist: int, calib2s: list):
     if not ctx.quick:
         # exhaustive small scope: every list of 1..2 variables over the six kinds, one fixed-shape history each
         cases += [gen_history(r, lay, n_ops=5) for lay in small_scope_layouts(2)]
+    # the same objects declared in other containers: a tuple kept for several constructions, a refused empty one
+    cases += [gen_history(r, lay, n_ops=6) for lay in (KIND_LAYOUTS[0], KIND_LAYOUTS[4], KIND_LAYOUTS[5])]
+    k = 0
     while len(cases) < n_hist:
-        cases.append(gen_history(r))
+        k += 1
+        cases.append(gen_history(r, p_kind=0.5 if k % 3 == 0 else 0.0))
     for k, runs in enumerate(calib2s):
         cases.append(gen_calib2(r, HIST_LAYOUTS[k % len(HIST_LAYOUTS)], runs))
     return cases
@@ -264,17 +333,36 @@ def gen_cases(ctx: Ctx, n_direct: int, n_malformed: int, calibs: list):
     for lay in FIXED_LAYOUTS:
         cases.append(make_case(r, lay))
         cases.append(make_case(r, lay))
+    for lay in KIND_LAYOUTS:
+        cases.append(make_case(r, lay))
+    for lay in YAML_LAYOUTS:
+        cases.append(make_case(r, lay, via="yaml"))
     if not ctx.quick:
         # exhaustive small scope: every list of 1..3 variables over the six kinds
         cases += [make_case(r, lay) for lay in small_scope_layouts(3)]
+        # ... and every list of 1..2 variables over "_" and every container with 0 / 1 / 2 placeholders
+        cases += [make_case(r, lay) for lay in container_scope_layouts(r)]
+    k = 0
     while len(cases) < n_direct:
-        cases.append(make_case(r))
+        # one case in four hands some vectors over in another container, one in eight goes through YAML
+        k += 1
+        if k % 8 == 3:
+            cases.append(make_case(r, p_kind=0.3, via="yaml"))
+        else:
+            cases.append(make_case(r, p_kind=0.5 if k % 4 == 1 else 0.0))
     for _ in range(n_malformed):
         cases.append(malformed_case(r))
     for k, (algo, seed, islands) in enumerate(calibs):
         lay = FIXED_LAYOUTS[[1, 2, 4, 3, 6, 8][k % 6]]
+        extra = {}
+        if k % 3 == 0:
+            # the vector variables are handed over in a tuple (Python API) ...
+            lay = [e if e[0] == "s" else (*e, "tuple") for e in lay]
+        elif k % 3 == 1:
+            # ... or the declaration comes from a YAML text
+            extra["via"] = "yaml"
         cases.append(make_case(r, lay, mode="calib", algo=algo, seed=seed, islands=islands,
-                               generations=2, pop=8, evolutions=2, num_best=3))
+                               generations=2, pop=8, evolutions=2, num_best=3, **extra))
     # declarations of total width one (C10-F1: the island's row became a 0-d array in the final application)
     for k, lay in enumerate([] if ctx.quick else WIDTH_ONE_LAYOUTS):      # quick: the corpus case
         cases.append(make_case(r, lay, mode="calib", algo="sade", seed=20 + k, islands=1 + k % 2,
@@ -312,8 +400,13 @@ def emit_var(v) -> str:
         bnd = f"(Shared ({raw(b[1])}) ({raw(b[2])}))"
     else:
         bnd = "(PerComp " + core.clist(f"({raw(lo)}, {raw(hi)})" for lo, hi in b[1]) + ")"
-    shape = "None" if v["n"] is None else f"(Some {core.cnat(v['n'])})"
+    shape = "None" if spec_n(v) is None else f"(Some {core.cnat(v['n'])})"
     return f"mkVar {core.cstr(v['key'])} {shape} {core.cbool(v['log'])} {bnd}"
+
+
+def emit_pval(kind, n) -> str:
+    # an object of a kind the harness does not know equals no prediction
+    return f"({CKIND.get(kind, 'KIter')}, {core.cnat(n if kind in CKIND else 99)})"
 
 
 def emit_applied(a) -> str:
@@ -343,7 +436,11 @@ def emit_case(case, obs) -> str:
     else:
         bounds = "None"
     probes = core.clist(emit_probe(strip_bystanders(p)) for p in obs.get("probes", []))
-    return f"{{| c_vars := {vs}; c_bounds := {bounds}; c_probes := {probes} |}}"
+    inner = f"{{| c_vars := {vs}; c_bounds := {bounds}; c_probes := {probes} |}}"
+    decl = core.clist(emit_pval(kind_name(v), 1 if v["n"] is None else v["n"]) for v in case["vars"])
+    vals = "None" if obs.get("vals") is None else "(Some " + core.clist(emit_pval(k, n) for k, n in obs["vals"]) + ")"
+    npar = "None" if obs.get("npar") is None else f"(Some {core.cnat(obs['npar'])})"
+    return f"{{| kc_case := {inner}; kc_decl := {decl}; kc_vals := {vals}; kc_npar := {npar} |}}"
 
 
 SEVEN = (7.0).hex()
@@ -367,13 +464,12 @@ def strip_bystanders(p):
 def emit_file(pairs) -> str:
     body = ";\n  ".join(emit_case(c, o) for c, o in pairs)
     return ("From Coq Require Import ZArith QArith List String.\n"
-            "From PyxelV Require Import Model.Decision Model.DecisionSrc.\n"
+            "From PyxelV Require Import Model.Decision Model.DecisionSrc Model.DecisionKinds.\n"
             "From PyxelGen Require Import Gen_C10.\n"
             "Import ListNotations.\nLocal Open Scope Q_scope.\n"
-            f"Definition cases : list c10_case := [\n  {body}\n].\n"
-            "Eval vm_compute in mismatches cases.\n"
-            "Eval vm_compute in violation_details cases.\n"
-            "Eval vm_compute in mismatches_g src_desc cases.\n")
+            f"Definition cases : list c10_kcase := [\n  {body}\n].\n"
+            "Eval vm_compute in kmismatches src_kinds src_desc cases.\n"
+            "Eval vm_compute in kviolation_details cases.\n")
 
 
 # ---- histories
@@ -420,12 +516,12 @@ def initial_config(case):
     cfg = []
     for v in case["vars"]:
         z = (0.0).hex()
-        cfg.append([v["key"], "s", [z]] if v["n"] is None else [v["key"], "v", [z] * v["n"]])
+        cfg.append([v["key"], "s", [z]] if spec_n(v) is None else [v["key"], "v", [z] * v["n"]])
     return cfg + [["m0.fixed", "s", [SEVEN]], ["m1.fixed", "s", [SEVEN]]]
 
 
 def declared_snapshot(case):
-    return dict(vars=[dict(key=v["key"], n=v["n"], log=v["log"], bnd=v["bnd"]) for v in case["vars"]],
+    return dict(vars=[dict(key=v["key"], n=spec_n(v), log=v["log"], bnd=v["bnd"]) for v in case["vars"]],
                 proc=initial_config(case), own=[])
 
 
@@ -453,7 +549,9 @@ def emit_hist(case, obs, snaps: dict) -> str:
             hop = f"HProbe {core.cnat(st['pid'])} {PKIND[st['op']]} ({emit_probe(strip_bystanders(st))})"
         steps.append(f"{{| h_op := {hop}; h_snap := {name} |}}")
     vs = core.clist(emit_var(v) for v in case["vars"])
-    return f"{{| hc_vars := {vs}; hc_proc := {emit_config(initial_config(case))}; hc_steps := {core.clist(steps)} |}}"
+    decl = core.clist(emit_pval(kind_name(v), 1 if v["n"] is None else v["n"]) for v in case["vars"])
+    return (f"({decl}, {{| hc_vars := {vs}; hc_proc := {emit_config(initial_config(case))}; "
+            f"hc_steps := {core.clist(steps)} |}})")
 
 
 def emit_hist_file(pairs) -> str:
@@ -461,13 +559,13 @@ def emit_hist_file(pairs) -> str:
     body = ";\n  ".join(emit_hist(c, o, snaps) for c, o in pairs)
     defs = "".join(f"Definition {name} : snapshot := {txt}.\n" for txt, name in snaps.items())
     return ("From Coq Require Import ZArith QArith List String.\n"
-            "From PyxelV Require Import Model.Decision Model.DecisionSrc.\n"
+            "From PyxelV Require Import Model.Decision Model.DecisionSrc Model.DecisionKinds.\n"
             "From PyxelGen Require Import Gen_C10.\n"
             "Import ListNotations.\nLocal Open Scope Q_scope.\n"
             + defs +
-            f"Definition hists : list c10_hist := [\n  {body}\n].\n"
-            "Eval vm_compute in hist_mismatches src_desc hists.\n"
-            "Eval vm_compute in hist_details hists.\n")
+            f"Definition hists : list (list pval * c10_hist) := [\n  {body}\n].\n"
+            "Eval vm_compute in khist_mismatches src_desc hists.\n"
+            "Eval vm_compute in khist_details hists.\n")
 
 
 # ------------------------------------------------------------------------------------------ decision inputs
@@ -477,9 +575,12 @@ def layout_class(case):
     vs = case["vars"]
     first_vec = next((i for i, v in enumerate(vs) if v["n"] is not None), None)
     vec_before_scalar = first_vec is not None and any(v["n"] is None for v in vs[first_vec + 1:])
+    odd = sorted({("empty " if v["n"] == 0 else "") + v["kind"] for v in vs if v.get("kind", "list") != "list"
+                  and v["n"] is not None})
     return dict(vector_before_scalar=vec_before_scalar, any_log=any(v["log"] for v in vs),
                 any_per_component=any(v["bnd"] and v["bnd"][0] == "per" for v in vs),
-                total_width_one=sum(1 if v["n"] is None else v["n"] for v in vs) == 1)
+                total_width_one=sum(1 if v["n"] is None else v["n"] for v in vs) == 1,
+                containers="+".join(odd) if odd else "list")
 
 
 def to_violation(case, obs, clauses, pb) -> Violation:
@@ -501,7 +602,8 @@ def to_violation(case, obs, clauses, pb) -> Violation:
     if "malformed" in case:
         sig["malformed"] = case["malformed"]
     what = (f"{clause} ({', '.join(CLAUSES.get(c, str(c)) for c in clauses)}) on "
-            f"{[(v['key'], 'scalar' if v['n'] is None else v['n'], 'log' if v['log'] else 'lin') for v in case['vars']]}"
+            f"{[(v['key'], 'scalar' if v['n'] is None else (v['n'] if v.get('kind', 'list') == 'list' else (v['kind'], v['n'])), 'log' if v['log'] else 'lin') for v in case['vars']]}"
+            + (" declared in YAML" if case.get("via") == "yaml" else "")
             + (f" via {tag}" if tag else ""))
     return Violation(clause=clause, case=small, observed=observed,
                      expected="bounds, conversion and assignment use the declared slices; log only on log slices; "
@@ -556,14 +658,19 @@ def correspondence(ctx: Ctx, cases, tag="c", workers=8):
     for name in sorted(files):
         ok, evals, se = res[name]
         chunk = chunks[name]
-        if not ok or len(evals) != 3:
+        if not ok or len(evals) != 2:
             ctx.broken.append(Broken("correspondence", f"case file {name}.v did not evaluate", core.tail(se, 15)))
             continue
-        mism += [chunk[i] for i in core.parse_int_list(evals[0])]
+        codes = core.parse_int_list(evals[0])
+        for i, code in zip(codes[0::2], codes[1::2]):
+            if code & 1:
+                mism.append(chunk[i])
+            if code & 2:
+                ctx.gen_mismatch.append(chunk[i])
+            if code & 4:
+                ctx.kind_mismatch.append(chunk[i])
         for i, (cl, pb) in sorted(parse_details(evals[1]).items()):
             viol.append((chunk[i][0], chunk[i][1], cl, pb))
-        for i in core.parse_int_list(evals[2]):
-            ctx.gen_mismatch.append(chunk[i])
     for name in sorted(hfiles):
         ok, evals, se = res[name]
         chunk = hchunks[name]
@@ -578,11 +685,16 @@ def correspondence(ctx: Ctx, cases, tag="c", workers=8):
         ctx.count("evaluations", max(n, 1))
         ctx.count("cases")
         ctx.dist("mode", c.get("malformed") and "malformed" or c.get("mode", "direct"))
+        ctx.dist("declared_via", c.get("via", "python api"))
+        for v in c["vars"]:
+            ctx.dist("container", ("empty " if v["n"] == 0 else "") + kind_name(v))
+        ctx.dist("refused_at", o.get("stage", "-") if "refused" in o else "built")
         ctx.dist("n_vars", len(c["vars"]))
         ctx.dist("outcome", "refused" if "refused" in o else "built")
         for p in o.get("probes", []):
             ctx.dist("probe", p["tag"])
         lc = layout_class(c)
+        ctx.dist("containers_of_case", lc["containers"])
         ctx.dist("vector_before_scalar", lc["vector_before_scalar"])
         for v in c["vars"]:
             ctx.dist("var_kind", ("scalar" if v["n"] is None else "vector") + ("/log" if v["log"] else "/lin")
@@ -593,6 +705,7 @@ def correspondence(ctx: Ctx, cases, tag="c", workers=8):
         ctx.count("histories")
         ctx.dist("mode", c["mode"])
         ctx.dist("history_builds", sum(1 for st in steps if st["op"] == "build"))
+        ctx.dist("history_containers", layout_class(c)["containers"])
         ctx.dist("history_has_log_vector_per_component",
                  any(v["n"] is not None and v["log"] and v["bnd"] and v["bnd"][0] == "per" for v in c["vars"]))
         ctx.dist("history_reuses_earlier_problem_after_later_build", any(
@@ -643,6 +756,7 @@ def to_violation_hist(case, obs, k, clauses) -> Violation:
 
 def run(ctx: Ctx):
     ctx.gen_mismatch = []
+    ctx.kind_mismatch = []
     ctx.trusted += TRUSTED
     ctx.assumptions += [
         "boundaries of logarithmic variables are positive (enforced by the code for scalars; hypothesis of "
@@ -700,7 +814,7 @@ def run(ctx: Ctx):
                                "(boundaries, placeholders, flags, configured values of the caller's processor and of every "
                                "problem's own processor) and judged in Coq against the declaration")
     ctx.cov["traces_validated_against_impl"] = len(pairs) + len(hpairs)
-    ctx.cov["disagreements_checked"] = len(mism) + len(hmism) + len(ctx.gen_mismatch)
+    ctx.cov["disagreements_checked"] = len(mism) + len(hmism) + len(ctx.gen_mismatch) + len(ctx.kind_mismatch)
     ctx.cov["log_tolerance"] = "2^-50 relative (4 ulp) on np.power(10, x), math.log10, np.log10; exact elsewhere"
     for c, o in pairs[:3]:
         ctx.sample(dict(vars=c["vars"], bounds=[o.get("lb"), o.get("ub")],
@@ -710,7 +824,7 @@ def run(ctx: Ctx):
     for c, o, st, cl in hviol:
         ctx.violations.append(to_violation_hist(c, o, st, cl))
     (ctx.build / "mismatches.json").write_text(json.dumps(
-        [dict(case=c, observed=o) for c, o in (mism + hmism + ctx.gen_mismatch)][:20], indent=1))
+        [dict(case=c, observed=o) for c, o in (mism + hmism + ctx.gen_mismatch + ctx.kind_mismatch)][:20], indent=1))
     for c, o in mism:
         ctx.broken.append(Broken("correspondence", "Model/Decision.v vs implementation",
                                  f"model and implementation differ on {[v['key'] for v in c['vars']]}",
@@ -719,6 +833,11 @@ def run(ctx: Ctx):
         ctx.broken.append(Broken("correspondence", "walks of the generated description (Gen_C10.v) vs implementation",
                                  f"the description read from the source and the implementation differ on "
                                  f"{[v['key'] for v in c['vars']]}", dict(case=c)))
+    for c, o in ctx.kind_mismatch:
+        ctx.broken.append(Broken("correspondence", "type tests + walks of the generated description (src_kinds, src_desc) "
+                                 "vs implementation",
+                                 f"the type tests read from the source and the implementation differ on "
+                                 f"{[(v['key'], kind_name(v), v['n']) for v in c['vars']]}", dict(case=c)))
     for c, o in hmism:
         ctx.broken.append(Broken("correspondence", "object-store model (generated description) vs implementation",
                                  f"model and implementation differ on a history over {[v['key'] for v in c['vars']]}",
@@ -737,7 +856,10 @@ def search(ctx: Ctx):
     ctx.log("searching for a concrete failing input (more declarations, more calibrations)")
     r = ctx.rng("search")
     cases = [make_case(r, lay) for lay in FIXED_LAYOUTS for _ in range(3)]
-    cases += [make_case(r) for _ in range(300)]
+    cases += [make_case(r) for _ in range(200)]
+    cases += [make_case(r, lay) for lay in KIND_LAYOUTS for _ in range(2)]
+    cases += [make_case(r, lay) for lay in container_scope_layouts(r)]
+    cases += [make_case(r, p_kind=0.6) for _ in range(100)] + [make_case(r, p_kind=0.4, via="yaml") for _ in range(40)]
     for k, (algo, seed, islands) in enumerate([("sade", 3, 2), ("sga", 4, 2), ("sade", 5, 1), ("nlopt", 6, 1)]):
         cases.append(make_case(r, FIXED_LAYOUTS[(k + 1) % 6], mode="calib", algo=algo, seed=seed, islands=islands,
                                generations=3, pop=8, evolutions=2, num_best=4))
@@ -774,8 +896,10 @@ def replay(ctx: Ctx, rp: dict) -> int:
     print("implementation: bounds", [float.fromhex(v) for v in obs.get("lb", [])],
           [float.fromhex(v) for v in obs.get("ub", [])], obs.get("refused", ""))
     prepare_gen(ctx, gen_text)
+    print("containers:", [(kind_name(v), v["n"]) for v in case["vars"]], "->", obs.get("vals"),
+          "| parameters counted:", obs.get("npar"), "| declared via", case.get("via", "python api"))
     ok, evals, se = core.coq_eval(ctx, "replay", emit_file([(case, obs)]))
-    if not ok or len(evals) != 3:
+    if not ok or len(evals) != 2:
         print("case file did not evaluate:", core.tail(se, 10))
         return 1
     bad = core.parse_int_list(evals[1]) != []
@@ -863,7 +987,15 @@ META = dict(
         "tiny calibrations and Calibration.run_calibration called twice on the same Calibration are run, and every "
         "logged evaluation, champion, best individual and final application of the champions' parameters is judged "
         "inside Coq against the specification; the generated description is run inside Coq against the same "
-        "observations."),
+        "observations. Containers: the translator also reads, for _set_bound, the parameter count of __init__, "
+        "convert_to_parameters and update_processor, the if/elif chain on var.values as a decision tree over the type "
+        "tests the source makes, labels every leaf by executing its path (scalar / vector / raise / other), and reads "
+        "which outer container convert_values returns; C10_same_type_tests (vm_compute over 7 kinds of container x 0/1/2 "
+        "placeholders) + C10_containers_classified_alike / _same_variables / _walks_agree prove for EVERY container with "
+        "ANY number of placeholders and every list of variables that the four walks take the same branch - the one the "
+        "declaration means - or the declaration is refused. The declarations driven through the implementation come "
+        "as \"_\", list, tuple, str, numpy array, UserList and generator through the Python API and as YAML text "
+        "through pyxel.configuration.loads."),
     level_note=(
         "Trusted: Coq kernel + vm_compute; real-number axioms + classic for C10_in_bounds / C10_src_in_bounds only (the "
         "structural and history theorems are closed); translator/c10.py (fail-closed; its output is also evaluated "
